@@ -114,6 +114,10 @@ pub trait MacroApi {
         #[query(name = "q1")] q: &Echo,
         #[header(name = "X-H1")] h: &Echo,
     ) -> Result<String, Error>;
+
+    /// a list-valued path parameter (server side: regex segment, one element per raw segment)
+    #[endpoint(method = GET, path = "/m/ids/{ids}", accept = ConjureResponseDeserializer)]
+    fn ids_path(&self, #[path] ids: i32) -> Result<String, Error>;
 }
 
 #[conjure_client]
@@ -185,6 +189,10 @@ pub trait AsyncMacroApi {
         #[query(name = "q1")] q: &Echo,
         #[header(name = "X-H1")] h: &Echo,
     ) -> Result<String, Error>;
+
+    /// a list-valued path parameter (server side: regex segment, one element per raw segment)
+    #[endpoint(method = GET, path = "/m/ids/{ids}", accept = ConjureResponseDeserializer)]
+    async fn ids_path(&self, #[path] ids: i32) -> Result<String, Error>;
 }
 
 macro_rules! macro_endpoints {
@@ -257,6 +265,9 @@ macro_rules! macro_endpoints {
                 #[query(name = "q1", log_as = "pq", safe)] q: Echo,
                 #[header(name = "X-H1", log_as = "hh")] h: Echo,
             ) -> Result<String, Error>;
+
+            #[endpoint(method = GET, path = "/m/ids/{ids:.*}", produces = StdResponseSerializer)]
+            $($asyncness)? fn ids_path(&self, #[path(name = "ids", decoder = FromStrSeqDecoder<_>)] ids: Vec<i32>) -> Result<String, Error>;
         }
     };
 }
@@ -307,6 +318,10 @@ macro_rules! macro_handler {
                 self.rec.lock().unwrap().calls.push(json!({"endpoint": "attrs", "args": {"b": a.0, "bee": b.0, "sea": c, "pq": q.0, "hh": h.0}}));
                 conjure_serde::json::client_from_str(&self.ret.to_string()).map_err(Error::internal_safe)
             }
+            $($asyncness)? fn ids_path(&self, ids: Vec<i32>) -> Result<String, Error> {
+                self.rec.lock().unwrap().calls.push(json!({"endpoint": "idsPath", "args": {"ids": ids}}));
+                conjure_serde::json::client_from_str(&self.ret.to_string()).map_err(Error::internal_safe)
+            }
         }
     };
 }
@@ -350,6 +365,7 @@ macro_rules! mac_calls {
                 "unit" => $w!(c.unit(&arg::<String>(args, "body")?)).map(|()| Value::Null),
                 "names" => $w!(c.names(arg(args, "type")?, arg(args, "fooBar")?, arg(args, "async")?, arg(args, "camelCase")?, arg(args, "self")?,
                     &arg::<Vec<i32>>(args, "snake_arg")?, arg(args, "match")?)).map(|v| json!(v)),
+                "idsPath" => $w!(c.ids_path(arg(args, "ids")?)).map(|v| json!(v)),
                 "attrs" => {
                     let e = |n: &str| -> Result<Echo, String> { Ok(Echo(arg::<String>(args, n)?)) };
                     $w!(c.attrs(&e("b")?, &e("bee")?, arg(args, "sea")?, &e("pq")?, &e("hh")?)).map(|v| json!(v))
